@@ -285,10 +285,13 @@ def check_c24(A: Analysis, col: Collector):
     elif unquoted:
         # what ad-hoc quoting exists
         adhoc = sorted({norm(t.test, 30) for t in walk_own(cl.node) if isinstance(t, ast.If)})
+        # the identity of the finding includes the shape of the ad-hoc quoting condition(s): a weaker (or merely
+        # different) condition is a different defect than the one triaged
+        adhoc_shape = "+".join(sorted({shape(t.test, 40) for t in walk_own(cl.node) if isinstance(t, ast.If)}))
         col.fail(
             "C24.quote",
             cl.qualname,
-            f"argv-element-concatenated-unquoted:x{len(unquoted)}",
+            f"argv-element-concatenated-unquoted:x{len(unquoted)}:adhoc[{adhoc_shape}]",
             f"{len(unquoted)} concatenation(s) add an argv element to the displayed command line without shlex.quote (ad-hoc quoting only under {adhoc}): elements containing quotes, backslashes, tabs or shell metacharacters do not split back to the executed arguments",
             A.loc(unquoted[0]),
         )
